@@ -8,6 +8,7 @@ sort / n_largest / n_smallest / nth_* / median, the derived eq/ne/lt/le/gt/ge/cm
 on generated nested values, format on ints/strs/floats; accounted bytes after a failed sort.
 Oracle: plain Python (sorted() is stable; tuples/lists compare lexicographically)."""
 import functools
+import re
 from .common import *
 
 ERR = "ERR"
@@ -225,6 +226,465 @@ def accounting_cases(chk, quick):
         chk.count("lang:accounting:failed-sort" if r["calls"][0] == "(bool true)" else "lang:accounting:sort-finished")
 
 
+# ------------------------------------------------------------------ derived eq / cmp / hash / to_str
+# types: ("int",) ("bool",) ("str",) ("tuple", [t..]) ("seq", t) ("opt", t) ("stack", t)
+def gen_type(rng, depth):
+    if depth == 0 or rng.random() < 0.25:
+        return (rng.choice(["int", "int", "bool", "str"]),)
+    k = rng.choice(["tuple", "seq", "seq", "opt", "stack"])
+    if k == "tuple":
+        return ("tuple", [gen_type(rng, depth - 1) for _ in range(rng.choice([2, 2, 3]))])
+    return (k, gen_type(rng, depth - 1))
+
+
+def type_str(t):
+    if t[0] in ("int", "bool", "str"):
+        return t[0]
+    if t[0] == "tuple":
+        return "(" + ", ".join(type_str(x) for x in t[1]) + ")"
+    return {"seq": "Sequence", "opt": "Optional", "stack": "Stack"}[t[0]] + "<" + type_str(t[1]) + ">"
+
+
+def has(t, kinds):
+    if t[0] in kinds:
+        return True
+    if t[0] == "tuple":
+        return any(has(x, kinds) for x in t[1])
+    if t[0] in ("seq", "opt", "stack"):
+        return has(t[1], kinds)
+    return False
+
+
+INTS = [-1, 0, 1, 2, 7, 2**63, 2**64 + 1, -(2**64) - 5]
+STRS = ["", "a", "ab", "b", "aé", "A"]
+
+
+def gen_val(rng, t, big):
+    k = t[0]
+    if k == "int":
+        return rng.choice(INTS[:5] if rng.random() < 0.8 else INTS)
+    if k == "bool":
+        return rng.random() < 0.5
+    if k == "str":
+        return rng.choice(STRS)
+    if k == "tuple":
+        return tuple(gen_val(rng, x, big) for x in t[1])
+    if k == "opt":
+        return None if rng.random() < 0.35 else ("some", gen_val(rng, t[1], big))
+    n = rng.choice([0, 1, 1, 2, 2, 3] + ([5, 8] if big else []))
+    return [gen_val(rng, t[1], False) for _ in range(n)]
+
+
+def mutate(rng, t, v):
+    """a value close to v (often equal in a prefix) so that ties and near-ties are frequent"""
+    k = t[0]
+    r = rng.random()
+    if r < 0.35:
+        return v
+    if k in ("int", "bool", "str"):
+        return gen_val(rng, t, False)
+    if k == "tuple":
+        j = rng.randrange(len(v))
+        return tuple(mutate(rng, t[1][i], x) if i == j else x for i, x in enumerate(v))
+    if k == "opt":
+        if v is None or rng.random() < 0.3:
+            return gen_val(rng, t, False)
+        return ("some", mutate(rng, t[1], v[1]))
+    if not v or rng.random() < 0.3:
+        return v + [gen_val(rng, t[1], False)] if rng.random() < 0.6 else v[:-1]
+    j = rng.randrange(len(v))
+    return [mutate(rng, t[1], x) if i == j else x for i, x in enumerate(v)]
+
+
+def xlit(t, v):
+    k = t[0]
+    if k == "int":
+        return lit(v)
+    if k == "bool":
+        return "true" if v else "false"
+    if k == "str":
+        return '"' + v + '"'
+    if k == "tuple":
+        return "(" + ", ".join(xlit(x, y) for x, y in zip(t[1], v)) + ")"
+    if k == "opt":
+        return f"cast<{type_str(t)}>(none())" if v is None else f"some({xlit(t[1], v[1])})"
+    if k == "seq":
+        return f"cast<{type_str(t)}>([])" if not v else "[" + ", ".join(xlit(t[1], x) for x in v) + "]"
+    # stack: top first in v
+    e = f"cast<{type_str(t)}>(stack())" if not v else "stack()"
+    for x in reversed(v):
+        e += f".push({xlit(t[1], x)})"
+    return e
+
+
+def enc(t, v):
+    k = t[0]
+    if k == "int":
+        return f"i{v};"
+    if k == "bool":
+        return "T" if v else "F"
+    if k == "str":
+        return "s" + ".".join(str(ord(c)) for c in v) + ";"
+    if k == "tuple":
+        return "(" + "".join(enc(x, y) for x, y in zip(t[1], v)) + ")"
+    if k == "opt":
+        return "N" if v is None else "?" + enc(t[1], v[1])
+    o, c = ("[", "]") if k == "seq" else ("{", "}")
+    return o + "".join(enc(t[1], x) for x in v) + c
+
+
+def esc(s):
+    out = '"'
+    for ch in s:
+        if ch == '"':
+            out += '\\"'
+        elif ch == "\\":
+            out += "\\\\"
+        elif ord(ch) < 0x20 or ord(ch) > 0x7e:
+            out += "\\u{%x}" % ord(ch)
+        else:
+            out += ch
+    return out + '"'
+
+
+def dump(t, v):
+    k = t[0]
+    if k == "int":
+        return f"(int {'S' if -2**63 <= v < 2**63 else 'L'} {v})"
+    if k == "bool":
+        return "(bool true)" if v else "(bool false)"
+    if k == "str":
+        return "(str " + esc(v) + ")"
+    if k == "tuple":
+        return "(struct" + "".join(" " + dump(x, y) for x, y in zip(t[1], v)) + ")"
+    if k == "opt":
+        return "(none)" if v is None else "(some " + dump(t[1], v[1]) + ")"
+    return "(" + k + "".join(" " + dump(t[1], x) for x in v) + ")"
+
+
+def key(t, v):
+    """python value whose ==/< are the structural eq / lexicographic cmp"""
+    k = t[0]
+    if k in ("int", "bool", "str"):
+        return v
+    if k == "tuple":
+        return tuple(key(x, y) for x, y in zip(t[1], v))
+    if k == "opt":
+        return (0,) if v is None else (1, key(t[1], v[1]))
+    return [key(t[1], x) for x in v]
+
+
+def to_str(t, v):
+    k = t[0]
+    if k == "int":
+        return str(v)
+    if k == "bool":
+        return "true" if v else "false"
+    if k == "str":
+        return v
+    if k == "tuple":
+        return "(" + ", ".join(to_str(x, y) for x, y in zip(t[1], v)) + ")"
+    if k == "opt":
+        return "None" if v is None else to_str(t[1], v[1])
+    return "[" + ", ".join(to_str(t[1], x) for x in v) + "]"
+
+
+def derive_cases(chk, quick):
+    rng = chk.rng
+    cases = []   # (op, type, a, b, expr, expected dump | ("hash", idx), model line or None, expected model answer)
+    n_types = 36 if quick else 500
+    for _ in range(n_types):
+        t = gen_type(rng, rng.choice([1, 2, 2, 3]))
+        comparable = not has(t, ("opt", "stack"))
+        printable = not has(t, ("stack",))
+        modelhash = not has(t, ("str",))
+        base = gen_val(rng, t, True)
+        vals = [base, mutate(rng, t, base), mutate(rng, t, base)]
+        vals.append(mutate(rng, t, vals[1]))
+        chk.count("derive:type:" + t[0])
+        for a in vals[:3]:
+            for b in vals[1:]:
+                ka, kb = key(t, a), key(t, b)
+                A, B = xlit(t, a), xlit(t, b)
+                ea, eb = enc(t, a), enc(t, b)
+                b2 = lambda x: "(bool true)" if x else "(bool false)"
+                m2 = lambda x: "bool true" if x else "bool false"
+                cases.append(("eq", f"{A} == {B}", b2(ka == kb), f"ord derive eq {ea} {eb}", m2(ka == kb)))
+                cases.append(("ne", f"{A} != {B}", b2(ka != kb), f"ord derive ne {ea} {eb}", m2(ka != kb)))
+                cases.append(("hash-congr", f"(hash({A}) == hash({B})) || {A} != {B}", b2(True), None, None))
+                if comparable:
+                    c = (ka > kb) - (ka < kb)
+                    cases.append(("cmp", f"cmp({A}, {B})", f"(int S {c})", f"ord derive cmp {ea} {eb}", f"int {c}"))
+                    cases.append(("lt", f"{A} < {B}", b2(c < 0), f"ord derive lt {ea} {eb}", m2(c < 0)))
+                    cases.append(("le", f"{A} <= {B}", b2(c <= 0), f"ord derive le {ea} {eb}", m2(c <= 0)))
+                    cases.append(("gt", f"{A} > {B}", b2(c > 0), f"ord derive gt {ea} {eb}", m2(c > 0)))
+                    cases.append(("ge", f"{A} >= {B}", b2(c >= 0), f"ord derive ge {ea} {eb}", m2(c >= 0)))
+                    mn, mx = (a, b) if c <= 0 else (b, a)
+                    cases.append(("min", f"min({A}, {B})", dump(t, mn), f"ord derive min {ea} {eb}", "val " + enc(t, mn)))
+                    cases.append(("max", f"max({A}, {B})", dump(t, mx), f"ord derive max {ea} {eb}", "val " + enc(t, mx)))
+            A, ea = xlit(t, a), enc(t, a)
+            cases.append(("hash", f"hash({A})", "HASH", f"ord derive hash {ea} N" if modelhash else None, "MODELHASH"))
+            if printable:
+                ts = to_str(t, a)
+                cases.append(("to_str", f"to_str({A})", "(str " + esc(ts) + ")", f"ord derive to_str {ea} N",
+                              "str " + ".".join(str(ord(ch)) for ch in ts)))
+    dumps = eval_exprs([c[1] for c in cases])
+    mi = [i for i, c in enumerate(cases) if c[3]]
+    mres = dict(zip(mi, run_model([cases[i][3] for i in mi])))
+    for i, ((op, expr, want, mline, mwant), d) in enumerate(zip(cases, dumps)):
+        chk.evaluations += 1
+        chk.count("derive:" + op)
+        replay = {"src": f"let r = {expr};", "get": ["r"], "expected": want, "got": d}
+        if want == "HASH":
+            okh = d.startswith("(int ") and 0 <= int(d.split()[2].rstrip(")")) < 2**64
+            if not okh:
+                chk.violation("lang:derive:hash:range", f"{expr[:300]} = {d[:100]}: not an int in [0, 2^64)", replay)
+            elif i in mres and mres[i] != "int " + d.split()[2].rstrip(")"):
+                chk.violation("tie:derive:hash", f"model hash differs from the implementation's on {expr[:200]}: model={mres[i]} impl={d}",
+                              {"src": replay["src"], "model": mline}, no_input=True)
+            continue
+        if d != want:
+            kind = "panic" if d.startswith("panic") else ("compile" if d.startswith("compile-err") else "wrong")
+            chk.violation(f"lang:derive:{op}:{kind}", f"{expr[:300]} evaluates to {d[:200]}; the structural answer is {want[:200]}", replay)
+            continue
+        if op in ("cmp", "lt", "le", "gt", "ge", "eq", "ne"):
+            chk.nontrivial.add((op, expr))
+        if i in mres and mres[i] != mwant:
+            chk.violation(f"tie:derive:{op}", f"model disagrees with the implementation (which matches the oracle) on {expr[:200]}: model={mres[i][:100]}",
+                          {"src": replay["src"], "model": mline, "model_out": mres[i]}, no_input=True)
+    chk.sample({"lang": cases[0][1][:200], "expected": cases[0][2]})
+    # set / mapping hash after removals (the model and theorems are C17's; here only the replay of the
+    # observation of DESIGN §7 as a regression)
+    extra = [("set-hash-after-remove", "hash(set([1, 2, 3]).remove(2)) == hash(set([1, 3]))", "(bool true)"),
+             ("set-eq-after-remove", "set([1, 2, 3]).remove(2) == set([1, 3])", "(bool true)"),
+             ("mapping-hash-after-pop", "hash(mapping().set(1, 10).set(2, 20).discard(2)) == hash(mapping().set(1, 10))", "(bool true)")]
+    for (k, expr, want), d in zip(extra, eval_exprs([e[1] for e in extra])):
+        chk.evaluations += 1
+        chk.count("derive:" + k)
+        if d.startswith("compile-err"):
+            chk.count("derive:" + k + ":not-expressible")
+            continue
+        if d != want:
+            chk.violation(f"lang:derive:{k}", f"{expr} = {d}; equal collections must hash equally", {"src": f"let r = {expr};", "get": ["r"]})
+
+
+# ------------------------------------------------------------------ format specifiers
+SPEC_RE = re.compile(r"""^((?P<fill>.)?(?P<align>[<>=^]))?(?P<sign>[-+ ])?(?P<alt>\#)?(?P<zero_pad>0)?(?P<width>[1-9][0-9]*)?(?P<grouping>[,_])?(?:\.(?P<precision>[0-9]*))?(?P<type>.)?\Z""")
+
+
+def py_spec(s):
+    """the documented grammar, read by Python's backtracking regex engine (independent of both sides)"""
+    m = SPEC_RE.match(s)
+    if not m:
+        return None
+    g = m.groupdict()
+    width = int(g["width"]) if g["width"] and int(g["width"]) < 2**64 else None
+    if width is not None and g["fill"] and ord(g["fill"]) >= 128:
+        return None
+    prec = g["precision"]
+    prec = int(prec) if prec and int(prec) < 2**64 else None
+    return {"fill": g["fill"] if width is not None else None, "align": g["align"] if width is not None else None,
+            "zero": (g["zero_pad"] is not None) if width is not None else None, "width": width, "prec": prec,
+            "sign": g["sign"], "group": g["grouping"], "type": g["type"], "alt": g["alt"] is not None}
+
+
+def spec_line(p):
+    if p is None:
+        return "none"
+    o = lambda c: "-" if c is None else str(ord(c))
+    z = "-" if p["zero"] is None else ("1" if p["zero"] else "0")
+    return (f"fill={o(p['fill'])} align={o(p['align'])} zero={z} width={'-' if p['width'] is None else p['width']} "
+            f"prec={'-' if p['prec'] is None else p['prec']} sign={o(p['sign'])} group={o(p['group'])} type={o(p['type'])} alt={1 if p['alt'] else 0}")
+
+
+def pads(p, ln):
+    if p["width"] is None or p["width"] < ln:
+        return "", "", ""
+    pad = p["width"] - ln
+    ch = p["fill"] if p["fill"] is not None else ("0" if p["zero"] else " ")
+    al = p["align"] if p["align"] is not None else ("=" if p["zero"] else ">")
+    if al == "<":
+        return "", "", ch * pad
+    if al == ">":
+        return ch * pad, "", ""
+    if al == "=":
+        return "", ch * pad, ""
+    return ch * (pad // 2), "", ch * (pad - pad // 2)
+
+
+def py_fmt_int(i, s):
+    p = py_spec(s)
+    if p is None or p["prec"] is not None:
+        return ERR
+    radix = {None: 10, "x": 16, "X": 16, "o": 8, "O": 8, "b": 2, "B": 2}.get(p["type"])
+    if radix is None:
+        return ERR
+    n, digs = abs(i), ""
+    while True:
+        digs = "0123456789abcdef"[n % radix] + digs
+        n //= radix
+        if n == 0:
+            break
+    if p["group"]:
+        parts = []
+        while digs:
+            parts.insert(0, digs[-3:])
+            digs = digs[:-3]
+        digs = p["group"].join(parts)
+    sg = "-" if i < 0 else ("+" if p["sign"] == "+" else (" " if p["sign"] == " " else ""))
+    if p["alt"]:
+        if p["type"] is None:
+            return ERR
+        sg += "0" + p["type"]
+    a, b, c = pads(p, len(digs) + len(sg))
+    return a + sg + b + digs + c
+
+
+def py_fmt_str(x, s):
+    p = py_spec(s)
+    if p is None or p["prec"] is not None or p["type"] is not None or p["alt"] or p["group"] or p["sign"]:
+        return ERR
+    if p["width"] is None:
+        return x
+    if p["align"] == "=" or (p["align"] is None and p["zero"]):
+        return ERR
+    a, b, c = pads(p, len(x))
+    return a + x + c
+
+
+def gen_spec(rng):
+    if rng.random() < 0.6:
+        s = ""
+        if rng.random() < 0.5:
+            s += rng.choice(["", "", "!", "*", "0", " ", "é", "<"]) + rng.choice("<>=^")
+        s += rng.choice(["", "", "+", "-", " "])
+        s += rng.choice(["", "", "#"])
+        s += rng.choice(["", "", "0"])
+        s += rng.choice(["", "1", "6", "9", "12", "20", "07", "99999999999999999999"])
+        s += rng.choice(["", "", ",", "_"])
+        s += rng.choice(["", "", "", ".", ".0", ".3"])
+        s += rng.choice(["", "", "x", "X", "o", "b", "B", "d", "e", "%", "é"])
+        return s
+    return "".join(rng.choice("<>=^+- #0159,_.xXobe!é\n") for _ in range(rng.choice([1, 2, 3, 4, 5, 7])))
+
+
+def cps(s):
+    return ".".join(str(ord(c)) for c in s) if s else "-"
+
+
+def format_cases(chk, quick):
+    rng = chk.rng
+    specs = sorted({gen_spec(rng) for _ in range(400 if quick else 6000)} |
+                   {"", "0", "00", "05", "<", "<<", "x<", "+", "++", "5", ",", ",,", ".", ".5", "5.", "#", "#x", "!<#6x", "015.3e", "\n", "\n<5"})
+    # unit level: the parsed fields
+    reqs = [{"op": "ord", "f": "spec", "s": s} for s in specs]
+    impl = run_harness(reqs)
+    model = run_model([f"ord spec {cps(s)}" for s in specs])
+    for s, ri, rm in zip(specs, impl, model):
+        chk.evaluations += 1
+        chk.count("format:spec")
+        got = "PANIC " + ri["panic"] if "panic" in ri else ri.get("r", json.dumps(ri))
+        want = spec_line(py_spec(s))
+        if got != want:
+            chk.violation("unit:format:spec:" + ("panic" if got.startswith("PANIC") else "wrong"),
+                          f"specifier {s!r} is parsed as [{got}]; the documented grammar gives [{want}]", {"harness": {"op": "ord", "f": "spec", "s": s}})
+        elif rm != got:
+            chk.violation("tie:format:spec", f"model parses {s!r} as [{rm}], implementation [{got}]", {"model": f"ord spec {cps(s)}"}, no_input=True)
+        else:
+            chk.nontrivial.add(("spec", s))
+    # language level: format of ints and strs
+    cases = []
+    ints = [0, 5, -5, 27, -298, 1234567, -1234567, 2**63, -(2**63), 2**70 + 12345, 999, 1000, -1000]
+    strs = ["", "ab", "héé", "x" * 7]
+    for s in specs:
+        if "\n" in s or '"' in s or "\\" in s:
+            continue
+        for _ in range(2):
+            i = rng.choice(ints)
+            w = py_fmt_int(i, s)
+            cases.append(("int", f'format({lit(i)}, "{s}")', ERR if w == ERR else "(str " + esc(w) + ")", f"ord fmtint {i} {cps(s)}",
+                          "err" if w == ERR else "str " + cps(w).replace("-", "") if w == "" else ("err" if w == ERR else "str " + cps(w))))
+        x = rng.choice(strs)
+        w = py_fmt_str(x, s)
+        cases.append(("str", f'format("{x}", "{s}")', ERR if w == ERR else "(str " + esc(w) + ")", f"ord fmtstr {cps(x)} {cps(s)}",
+                      "err" if w == ERR else ("str " + cps(w) if w else "str ")))
+    for i in ints:
+        cases.append(("empty-int", f'format({lit(i)}, "") == to_str({lit(i)})', "(bool true)", None, None))
+    for x in strs:
+        cases.append(("empty-str", f'format("{x}", "") == to_str("{x}")', "(bool true)", None, None))
+    for f in ["1.5", "0.1", "1e20", "-2.25", "0.0", "123456789.125", "1e-7"]:
+        cases.append(("empty-float", f'format({f}, "") == to_str({f})', "(bool true)", None, None))
+    dumps = eval_exprs([c[1] for c in cases])
+    mi = [i for i, c in enumerate(cases) if c[3]]
+    mres = dict(zip(mi, run_model([cases[i][3] for i in mi])))
+    for i, ((kind, expr, want, mline, mwant), d) in enumerate(zip(cases, dumps)):
+        chk.evaluations += 1
+        chk.count("format:" + kind)
+        got = ERR if d.startswith("(error ") else d
+        replay = {"src": f"let r = {expr};", "get": ["r"], "expected": want, "got": d}
+        if got != want:
+            k2 = "panic" if d.startswith("panic") else "wrong"
+            chk.violation(f"lang:format:{kind}:{k2}", f"{expr} evaluates to {d[:200]}; the documented grammar gives {want[:200]}", replay)
+            continue
+        if i in mres:
+            gm = mres[i]
+            if gm.rstrip() != mwant.rstrip():
+                chk.violation(f"tie:format:{kind}", f"model disagrees with the implementation (which matches the oracle) on {expr}: model={gm}",
+                              {"src": replay["src"], "model": mline, "model_out": gm}, no_input=True)
+    chk.sample({"lang": cases[5][1], "expected": cases[5][2]})
+
+
+# ------------------------------------------------------------------ unit level: TryHeap (n_largest / n_smallest)
+def heap_cases(chk, quick):
+    """push all, pop n, with the comparator failing at every k.  Oracle: the n largest (smallest) in order;
+    on failure every object is accounted for exactly once (popped / still in the heap / not yet pushed / the
+    one a failing pop had already removed), checked by pointer identity and reference counts."""
+    rng = chk.rng
+    base = []
+    for n in (list(range(0, 14)) + [20, 33]) if quick else (list(range(0, 40)) + [64, 100, 200]):
+        for _ in range(2):
+            xs = gen_list(rng, n)
+            base.append((xs, rng.choice([1000, 1]), rng.random() < 0.5, rng.choice([0, 1, 2, n // 2, n, n + 2])))
+    reqs = [{"op": "ord", "f": "heap", "d": d, "k": -1, "n": m, "dec": dec, "xs": xs} for xs, d, dec, m in base]
+    impl = run_harness(reqs)
+    freqs, fmeta = [], []
+    for (xs, d, dec, m), req, ri in zip(base, reqs, impl):
+        chk.evaluations += 1
+        chk.count("unit:heap:ok")
+        got = "PANIC " + ri["panic"] if "panic" in ri else ri.get("r", json.dumps(ri))
+        parts = got.split(" ")
+        keyf = (lambda x: -(x // d)) if dec else (lambda x: x // d)
+        ok = parts[0] == "ok" and ri.get("conserved") and parts[8] == "-"
+        if ok:
+            popped, drained = parse_list(parts[2]), parse_list(parts[6])
+            allp = popped + drained
+            ok = (len(popped) == min(m, len(xs)) and sorted(allp) == sorted(xs)
+                  and [keyf(x) for x in allp] == sorted(keyf(x) for x in xs))
+        if not ok:
+            chk.violation("unit:heap:" + ("panic" if got.startswith("PANIC") else "wrong"), f"heap run (dec={dec}, n={m}) over {len(xs)} elements: {got[:200]}", {"harness": req})
+            continue
+        ncmp = int(parts[10])
+        ks = range(ncmp) if ncmp <= 300 else sorted(rng.sample(range(ncmp), 60))
+        for k in ks:
+            kind = "violation" if k % 2 else "error"
+            freqs.append({"op": "ord", "f": "heap", "d": d, "k": k, "kind": kind, "n": m, "dec": dec, "xs": xs})
+            fmeta.append((xs, k, kind))
+    impl = run_harness(freqs)
+    for (xs, k, kind), req, ri in zip(fmeta, freqs, impl):
+        chk.evaluations += 1
+        chk.count("unit:heap:fail-at-k")
+        got = "PANIC " + ri["panic"] if "panic" in ri else ri.get("r", json.dumps(ri))
+        parts = got.split(" ")
+        good = parts[0] == kind and ri.get("conserved") and int(parts[10]) >= k + 1
+        if good:
+            popped, drained, missing = parse_list(parts[2]), parse_list(parts[6]), parse_list(parts[8])
+            notp = parse_list(ri.get("not_pushed", "-"))
+            good = sorted(popped + drained + missing + notp) == sorted(xs) and len(missing) <= 1 and int(parts[4]) == len(drained)
+        if not good:
+            chk.violation("unit:heap:fail:" + ("panic" if got.startswith("PANIC") else "lost-or-duplicated"),
+                          f"heap with the comparator failing ({kind}) at comparison {k}: {got[:200]} conserved={ri.get('conserved')}", {"harness": req})
+
+
 def _resp_fail_local(r):
     if "panic" in r:
         return "panic " + r["panic"]
@@ -235,6 +695,19 @@ def _resp_fail_local(r):
     if r.get("inst") != "ok":
         return "viol " + str(r["inst"])
     return None
+
+
+def regression_cases(chk):
+    """the witnesses of the defects repaired by `fix:` commits, replayed on every run"""
+    wit = [("sort-run-detection", "range(30).map((x:int)->{x*7%11}).sort().to_array()", dump_ints(sorted(x * 7 % 11 for x in range(30)))),
+           ("format-str-zero-pad", 'is_error(format("ab", "05"))', "(bool true)"),
+           ("format-float-empty", 'format(1.5, "")', '(str "1.5")')]
+    for (k, expr, want), d in zip(wit, eval_exprs([w[1] for w in wit])):
+        chk.evaluations += 1
+        chk.count("regression:" + k)
+        if d != want:
+            chk.violation(f"regression:{k}", f"{expr} evaluates to {d[:200]}; expected {want[:200]} (a repaired defect is back)",
+                          {"src": f"let r = {expr};", "get": ["r"]})
 
 
 def run(chk):
@@ -251,6 +724,10 @@ def run(chk):
     sort_cases(chk, quick)
     lang_sort_cases(chk, quick)
     accounting_cases(chk, quick)
+    heap_cases(chk, quick)
+    derive_cases(chk, quick)
+    format_cases(chk, quick)
+    regression_cases(chk)
     return chk.finish(rule="sequences of length 0-40 (quick) / 0-200+ (thorough) over 9 key patterns (random, few keys, ascending, strictly descending, "
                            "sawtooth, concatenated runs, plateaus, organ pipe, all equal) sorted by key with the comparator failing at every comparison index k; "
                            "non-trivial = distinct (list, k) where the list has ties and more than 20 elements, or a failure was injected")
